@@ -88,7 +88,22 @@ def run(ctx):
     for p in (hs["problems"] or [])[:5]:
         vlib.report(ctx, "runtime host protocol connection: %s after the script %s" % (p["problem"], json.dumps(p["script"])[:600]), p,
                     {"kind": p["problem"].split(":")[0], "entry": "protocol.Connection"})
-    ctx.coverage.update(hostproto_design_states=hr.distinct, hostproto_scripts=hs["scripts"], hostproto_replayed=hs["replayed"],
+    # ... and with request frames of the runtime (their handler goroutines answer through the same writer; Close must release them)
+    hp2 = ctx.path("hostproto-req.json")
+    hvh2 = vlib.popen_vh(["proto-replay", "-in", "-", "-out", hp2, "-every", "10" if q else "4", "-seed", str(ctx.seed + 7)])
+    hg2 = vlib.run_tlc(ctx, hd, "MCHostProto", "gen_hostproto_req_quick.cfg" if q else "gen_hostproto_req_thorough.cfg", timeout=2400, sink=hvh2.stdin)
+    hvh2.stdin.close()
+    if hvh2.wait() != 0:
+        raise vlib.Infra("proto-replay (requests) failed")
+    vlib.tlc_must_pass(ctx, hg2, "script generation HostProto with peer requests")
+    hs2 = json.load(open(hp2))
+    if hs2["scripts"] != hg2.emitted or not hg2.emitted:
+        raise vlib.Infra("HostProto (requests): emitted %d scripts, harness saw %d" % (hg2.emitted, hs2["scripts"]))
+    ctx.log("host protocol with peer requests: %d scripts emitted, %d replayed, problems %s" % (hs2["scripts"], hs2["replayed"], hs2["problem_kinds"]))
+    for p in (hs2["problems"] or [])[:5]:
+        vlib.report(ctx, "runtime host protocol connection: %s after the script %s" % (p["problem"], json.dumps(p["script"])[:600]), p,
+                    {"kind": p["problem"].split(":")[0], "entry": "protocol.Connection"})
+    ctx.coverage.update(hostproto_design_states=hr.distinct, hostproto_scripts=hs["scripts"] + hs2["scripts"], hostproto_replayed=hs["replayed"] + hs2["replayed"],
                         hostproto_model_counterexample_without_delete=True)
     # live multiplexers: junk / malformed / bit-flipped transaction bytes through DeliverTx (every call under recover())
     # (-txsweep: every third block, every single structural mutation of the body of each of the block's well-formed transactions -
